@@ -213,7 +213,7 @@ pub fn enumerate(thorough: bool) -> (Vec<Scen>, Vec<u32>, Value) {
     ];
     let reduced = [Framing::Cl0, Framing::Cl5, Framing::Cl5Close, Framing::Chunked, Framing::ChunkedExt, Framing::S204, Framing::H10Eof];
     let mut body = Vec::new();
-    let mut push_all = |list: &mut Vec<Scen>, group: &str, kind: ReqKind, interim: Interim, framings: &[Framing], consumers: &[Consumer], resets: bool| {
+    let push_all = |list: &mut Vec<Scen>, group: &str, kind: ReqKind, interim: Interim, framings: &[Framing], consumers: &[Consumer], resets: bool| {
         for &f in framings {
             if f.method_head() {
                 continue;
